@@ -482,6 +482,10 @@ def run(tier):
     import x10_load
     if x10_load.enabled():
         x10_load.run_part(ck, tier)
+    # extension X22: the second keyed store, the source -> destination binding table (checks/x22_mapping.py, docs/X22_mapping.md)
+    import x22_mapping
+    if x22_mapping.enabled():
+        x22_mapping.run_part(ck, tier)
     return ck.finish()
 
 
@@ -491,6 +495,9 @@ def replay(path):
     if det.get("part") == "x10":
         import x10_load
         return x10_load.replay(det, path)
+    if det.get("part") == "x22":
+        import x22_mapping
+        return x22_mapping.replay(det, path)
     beh = det.get("behaviour")
     if not beh:
         print(json.dumps(det, indent=1)[:4000])
